@@ -466,6 +466,151 @@ def rand_table(r, table, script_universe, lang_universe, present_scripts=None, s
     return {"scripts": scripts, "feats": feats}
 
 
+def conv_scripts(tb):
+    """ScriptList of a fontbuild recipe from the abstract table. Language systems that carry the same "share" key inside
+    one script record are serialised ONCE and referenced by several LangSys offsets (DefaultLangSys included)."""
+    import fontbuild
+    out = []
+    for sc in tb["scripts"]:
+        shared = {}
+        def ls(l):
+            d = {"tag": untag(l["tag"]), "required": l["req"], "features": list(l["feats"])}
+            if l.get("share") is None:
+                return d
+            key = l["share"]
+            if key not in shared:
+                shared[key] = fontbuild._langsys(d).build()
+            return {"tag": d["tag"], "raw_bytes": shared[key]}      # the same bytes object: one copy, one offset
+        out.append({"tag": untag(sc["tag"]), "default": None if sc["dflt"] is None else ls(sc["dflt"]),
+                    "langs": [ls(l) for l in sc["langs"]]})
+    return out
+
+
+def feature_lookups(tb, i):
+    """lookup indices of feature record i: its own lookup i, plus whatever dangling lookup indices `malform` put around it"""
+    return list(tb.get("flk", {}).get(i, [i]))
+
+
+# ----------------------------------------------------------------------------------------------
+# malformed-but-accepted layout tables: what subsetters, font editors and hand-made fonts really leave behind. Nothing in a
+# LangSys forces its indices to point into the FeatureList, nothing in a Feature forces its lookup indices to point into
+# the LookupList, nothing stops two LangSys offsets from pointing to one table. OpenType consumers skip what dangles.
+
+def dangling_value(r, n):
+    """an index >= n (n = FeatureCount / LookupCount): just past the end, far past, the largest ones"""
+    return r.choice([n, n, n + 1, n + r.range(2, 40), 2 * n + 3, 0x7FFF, 0xFFFE, 0xFFFF])
+
+
+def malform_indices(r, f, n, allow_ffff=True):
+    """an index array with dangling entries at the FIRST position, in the MIDDLE, at the LAST position, at several of
+    them; duplicated entries; entries naming records of other language systems. Order of the original entries kept."""
+    f = list(f)
+    def dv():
+        v = dangling_value(r, n)
+        return v if (allow_ffff or v != 0xFFFF) else n
+    k = r.below(10)
+    if k in (0, 3, 5, 6):
+        f.insert(0, dv())                                  # first
+    if k == 5:
+        f.insert(0, dv())                                  # two in front
+    if k in (1, 6):
+        pos = r.range(1, len(f) - 1) if len(f) >= 2 else len(f)
+        f.insert(pos, dv())                                # middle (between two entries when there are two)
+    if k in (2, 3, 6):
+        f.append(dv())                                     # last
+    if k == 4:                                             # one before every entry
+        g = []
+        for x in f:
+            g += [dv(), x]
+        f = g
+    if f and r.chance(1, 4):
+        f.insert(r.range(0, len(f)), r.choice(f))          # duplicate
+    if n and r.chance(1, 6):
+        f.insert(r.range(0, len(f)), r.below(n))           # some other existing record
+    return f
+
+
+def all_langsys(tb):
+    for sc in tb["scripts"]:
+        if sc["dflt"] is not None:
+            yield sc["dflt"]
+        for l in sc["langs"]:
+            yield l
+
+
+def malform_table(r, tb, records=True):
+    """in place; returns the list of malformation kinds applied (for the distribution)"""
+    import copy
+    kinds = set()
+    n = len(tb["feats"])
+    # language systems: index arrays, required index
+    for ls in all_langsys(tb):
+        if r.chance(3, 4):
+            before = list(ls["feats"])
+            ls["feats"] = malform_indices(r, ls["feats"], n)
+            if any(x >= n for x in ls["feats"]):
+                kinds.add("dangling-feature-index")
+                real = [i for i, x in enumerate(ls["feats"]) if x < n]
+                dang = [i for i, x in enumerate(ls["feats"]) if x >= n]
+                if real and dang[0] < real[-1]:
+                    kinds.add("dangling-before-valid")
+            if len(set(ls["feats"])) < len(ls["feats"]):
+                kinds.add("duplicate-feature-index")
+        if ls["req"] is None and r.chance(1, 8):
+            v = dangling_value(r, n)
+            ls["req"] = None if v == 0xFFFF else v          # 0xFFFF is "no required feature"
+            kinds.add("required-dangling" if ls["req"] is not None else "required-ffff")
+    # LangSys tables shared by several records of one script (DefaultLangSys too)
+    nshare = 0
+    for sc in tb["scripts"]:
+        group = ([sc["dflt"]] if sc["dflt"] is not None else []) + sc["langs"]
+        if len(group) >= 2 and r.chance(1, 3):
+            a, b = r.sample(group, 2)
+            key = f"s{nshare}"; nshare += 1
+            a["share"] = key
+            b["share"] = key
+            b["feats"] = list(a["feats"]); b["req"] = a["req"]
+            kinds.add("shared-langsys")
+            if len(group) >= 3 and r.chance(1, 2):
+                c3 = r.choice([g for g in group if g is not a and g is not b])
+                c3["share"] = key; c3["feats"] = list(a["feats"]); c3["req"] = a["req"]
+    # feature records whose lookup index array dangles
+    flk = {}
+    for i in range(n):
+        if r.chance(1, 3):
+            flk[i] = malform_indices(r, [i], n)             # LookupCount = FeatureCount: one lookup per feature record
+            flk[i] = [x for x in flk[i] if x >= n or x == i]   # only dangling entries and duplicates of its own lookup
+            if any(x >= n for x in flk[i]):
+                kinds.add("dangling-lookup-index")
+    if flk:
+        tb["flk"] = flk
+    # default language systems missing
+    if r.chance(1, 8):
+        for sc in tb["scripts"]:
+            if sc["langs"]:
+                sc["dflt"] = None
+        kinds.add("default-langsys-missing")
+    # records out of order / duplicated (with DIFFERENT content, so that the binary search is visible)
+    if records and tb["scripts"] and r.chance(1, 4):
+        pool = [copy.deepcopy(l) for l in all_langsys(tb)]
+        for sc in tb["scripts"]:
+            if sc["langs"] and r.chance(1, 2):
+                d = copy.deepcopy(r.choice(pool)); d["tag"] = r.choice(sc["langs"])["tag"]; d.pop("share", None)
+                sc["langs"].insert(r.range(0, len(sc["langs"])), d)
+                kinds.add("duplicate-langsys-record")
+            if len(sc["langs"]) >= 2 and r.chance(1, 2):
+                sc["langs"] = r.shuffle(sc["langs"])
+                kinds.add("unsorted-langsys-records")
+        if r.chance(1, 2):
+            d = copy.deepcopy(r.choice(tb["scripts"])); d["tag"] = r.choice(tb["scripts"])["tag"]
+            tb["scripts"].insert(r.range(0, len(tb["scripts"])), d)
+            kinds.add("duplicate-script-record")
+        if len(tb["scripts"]) >= 2 and r.chance(1, 2):
+            tb["scripts"] = r.shuffle(tb["scripts"])
+            kinds.add("unsorted-script-records")
+    return sorted(kinds)
+
+
 def abstract(tb):
     if tb is None:
         return "-"
@@ -481,14 +626,9 @@ def recipe_of(gsub, gpos):
     n = BASE + max(len(gsub["feats"]) if gsub else 0, 1) + 1
     rec = {"num_glyphs": n, "cmap": "pua"}
     def conv(tb, table):
-        def ls(l):
-            return {"tag": untag(l["tag"]), "required": l["req"], "features": list(l["feats"])}
-        out = {"raw": True, "scripts": [], "features": [], "lookups": []}
-        for sc in tb["scripts"]:
-            out["scripts"].append({"tag": untag(sc["tag"]), "default": None if sc["dflt"] is None else ls(sc["dflt"]),
-                                   "langs": [ls(l) for l in sc["langs"]]})
+        out = {"raw": True, "scripts": conv_scripts(tb), "features": [], "lookups": []}
         for i, ft in enumerate(tb["feats"]):
-            out["features"].append({"tag": ft, "lookups": [i]})
+            out["features"].append({"tag": ft, "lookups": feature_lookups(tb, i)})
             req = ft.startswith("rqd")
             if table == 0:
                 out["lookups"].append({"type": 1, "subtables": [{"format": 2, "coverage": [PROBE_B if req else PROBE_A],
@@ -597,6 +737,28 @@ def select_cases(ctx, r, shim):
         gsub = rand_table(r, 0, universe, lang_universe, sort=False)
         gpos = rand_table(r, 1, universe, lang_universe, sort=False) if r.chance(1, 2) else None
         cases.append({"gsub": gsub, "gpos": gpos, "script": s, "lang": l, "st": st, "lt": lt, "kind": "unsorted"})
+    # malformed but accepted: dangling / duplicated feature indices at every position of a language system's array, dangling
+    # required and lookup indices, LangSys tables shared between records, default language systems missing, DFLT only;
+    # GSUB and GPOS independently (records stay sorted here: the select-shape search runs on these fonts too)
+    rm = ctx.rng("select-malformed")
+    for _ in range(ctx.budget(500, 12000)):
+        s = rm.choice(SEL_SCRIPTS); l = rm.choice(SEL_LANGS)
+        st, lt = tl[(s, l)]
+        universe = list(dict.fromkeys(tl[(s, "-")][0] + [tg("DFLT"), tg("dflt"), tg("latn")]))
+        present = [t for t in universe if rm.chance(1, 2)] or [tg("DFLT")]
+        if rm.chance(1, 6):
+            present = [tg("DFLT")]
+        lang_universe = list(dict.fromkeys(lt + [tg("dflt"), tg("AAA "), tg("ZZZ ")]))
+        gsub = rand_table(rm, 0, universe, lang_universe, present_scripts=present)
+        gpos = None if rm.chance(1, 3) else rand_table(rm, 1, universe, lang_universe,
+                                                       present_scripts=present if rm.chance(1, 2) else None)
+        if rm.chance(1, 10):
+            gsub, gpos = None, rand_table(rm, 1, universe, lang_universe, present_scripts=present)
+        mal = []
+        for tb, name in ((gsub, "gsub"), (gpos, "gpos")):
+            if tb is not None and rm.chance(3, 4):
+                mal += [f"{name}:{k}" for k in malform_table(rm, tb, records=False)]
+        cases.append({"gsub": gsub, "gpos": gpos, "script": s, "lang": l, "st": st, "lt": lt, "kind": "malformed", "mal": mal})
     for c in cases:
         c["hex"] = fontbuild.build(recipe_of(c["gsub"], c["gpos"])).hex()
         c["abs"] = abstract(c["gsub"]) + "/" + abstract(c["gpos"])
@@ -604,7 +766,7 @@ def select_cases(ctx, r, shim):
 
 
 def stream_select(ctx, r, cases):
-    lines, kind = [], {}
+    lines, kind, malk = [], {}, {}
     jl = lambda v: "-" if not v else ",".join(map(str, v))
     for c in cases:
         for t in (0, 1):
@@ -624,6 +786,8 @@ def stream_select(ctx, r, cases):
             lines.append(ln); kind[ln] = c["kind"]
         ln = f"tagplan {c['hex']} {c['abs']} {r.below(2)} {tg(c['script'])} {'-' if c['lang'] == '-' else hx(c['lang'])}"
         lines.append(ln); kind[ln] = c["kind"] + ":" + ("shaper" if c["script"] in MODELLED_SHAPER else "noshaper")
+        for k in c.get("mal", []):
+            malk.setdefault(ln, []).append(k)
 
     def canon_sel(x):
         x = canon(x)
@@ -642,6 +806,7 @@ def stream_select(ctx, r, cases):
                 ks.append("tagsel:req" + ("-" if f[4] == "-" else "+"))
         if t[0] == "tagplan":
             ks.append("shaper:" + out.split()[0])
+            ks += ["malformed:" + k for k in malk.get(ln, [])]
         return ks
 
     # the model only knows the shapers of the scripts with several tag generations
@@ -668,7 +833,7 @@ def search_shape(ctx, cases):
     """end to end: shape() substitutes / positions the probes according to the records the model selects"""
     shim = vlib.build_harness()
     model = vlib.build_model()
-    good = [c for c in cases if c["kind"] == "sorted"]
+    good = [c for c in cases if c["kind"] in ("sorted", "malformed")]
     plan_lines = [f"tagplan {c['hex']} {c['abs']} 0 {tg(c['script'])} {'-' if c['lang'] == '-' else hx(c['lang'])}" for c in good]
     plans = vlib.run_lines(model, plan_lines)
     groups = []
@@ -693,6 +858,8 @@ def search_shape(ctx, cases):
             got = {"A": int(g[0][0]), "B": int(g[1][0]), "C": int(g[2][3]), "D": int(g[3][3])}
         key = ("gsub:" + ("none" if sel[0] is None else ("lang" if sel[0][1] is not None else "dflt") + ("+req" if sel[0][2] is not None else "")))
         dist[key] = dist.get(key, 0) + 1
+        for k in selected_malformations(c, sel):
+            dist[k] = dist.get(k, 0) + 1
         if exp != {"A": PROBE_A, "B": PROBE_B, "C": 500, "D": 500}:
             nontriv += 1
         if got != exp:
@@ -702,12 +869,17 @@ def search_shape(ctx, cases):
                               f"language {c['lang']}: expected {exp}, got {got}",
                               {"stage": "search", "stream": "select-shape", "font_hex": c["hex"], "abstract": c["abs"],
                                "script": c["script"], "lang": c["lang"], "model_selection": p, "expected": exp,
-                               "observed": o[1]})
+                               "observed": o[1], "malformations": c.get("mal", []),
+                               "selected_language_systems": describe_selected(c, sel)})
     ctx.note_search("select-shape", len(good), nontriv, distribution=dist, mismatches=bad,
                     rule="synthetic fonts (fontbuild) with one single-substitution (GSUB) / single-adjustment (GPOS) feature per "
                          "(script record, langsys) naming the record, every present/absent combination of the candidate script "
                          "tags + DFLT/dflt/latn per script, random langsys / required-feature layout; shape() of 4 probe glyphs "
-                         "must show exactly the features of the records the model selects; non-trivial = some probe changes")
+                         "must show exactly the features of the records the model selects; plus fonts with malformed-but-accepted "
+                         "tables (dangling / duplicated feature indices at the first, a middle, the last position of the "
+                         "language system's array, dangling required and lookup indices, shared LangSys tables, missing default "
+                         "language systems, DFLT only; GSUB and GPOS independently): exactly the EXISTING listed features take "
+                         "part; non-trivial = some probe changes")
 
 
 # ----------------------------------------------------------------------------------------------
@@ -811,14 +983,9 @@ def recipe_multi(gsub, gpos):
     n = G_NAME0 + (len(gsub["feats"]) if gsub else 0) + 1
     rec = {"num_glyphs": n, "cmap": "pua"}
     def conv(tb, table):
-        def ls(l):
-            return {"tag": untag(l["tag"]), "required": l["req"], "features": list(l["feats"])}
-        out = {"raw": True, "scripts": [], "features": [], "lookups": []}
-        for sc in tb["scripts"]:
-            out["scripts"].append({"tag": untag(sc["tag"]), "default": None if sc["dflt"] is None else ls(sc["dflt"]),
-                                   "langs": [ls(l) for l in sc["langs"]]})
+        out = {"raw": True, "scripts": conv_scripts(tb), "features": [], "lookups": []}
         for i, ft in enumerate(tb["feats"]):
-            out["features"].append({"tag": ft, "lookups": [i]})
+            out["features"].append({"tag": ft, "lookups": feature_lookups(tb, i)})
             k = MULTI_TAGS[table].index(ft)
             if table == 0:
                 out["lookups"].append({"type": 1, "subtables": [{"format": 2, "coverage": [G_GSUB0 + k], "subst": [G_NAME0 + i]}]})
@@ -842,6 +1009,54 @@ def selected_sys(tb, sel):
     si, li, _ = sel
     sc = tb["scripts"][si]
     return sc["dflt"] if li is None else sc["langs"][li]
+
+
+def selected_malformations(c, sel):
+    """which malformations sit in the language systems the case SELECTS (distribution keys)"""
+    ks = []
+    for name, tb, se in (("gsub", c["gsub"], sel[0]), ("gpos", c["gpos"], sel[1])):
+        sys = selected_sys(tb, se)
+        if sys is None:
+            continue
+        n = len(tb["feats"])
+        f = sys["feats"]
+        dang = [i for i, x in enumerate(f) if x >= n]
+        real = [i for i, x in enumerate(f) if x < n]
+        if dang:
+            ks.append(f"selected:{name}:dangling-feature-index")
+            if dang[0] == 0:
+                ks.append(f"selected:{name}:dangling-first")
+            if dang[-1] == len(f) - 1:
+                ks.append(f"selected:{name}:dangling-last")
+            if any(0 < i < len(f) - 1 for i in dang):
+                ks.append(f"selected:{name}:dangling-middle")
+            if real and dang[0] < real[-1]:
+                ks.append(f"selected:{name}:dangling-before-valid")
+        if len(set(f)) < len(f):
+            ks.append(f"selected:{name}:duplicate-feature-index")
+        if sys.get("share") is not None:
+            ks.append(f"selected:{name}:shared-langsys")
+        if sys["req"] is not None and sys["req"] >= n:
+            ks.append(f"selected:{name}:required-dangling")
+        if any(any(x >= n for x in tb.get("flk", {}).get(i, [])) for i in f if i < n):
+            ks.append(f"selected:{name}:dangling-lookup-index")
+    return ks
+
+
+def describe_selected(c, sel):
+    """the selected language systems in words, for the replay"""
+    out = {}
+    for name, tb, se in (("gsub", c["gsub"], sel[0]), ("gpos", c["gpos"], sel[1])):
+        sys = selected_sys(tb, se)
+        if sys is None:
+            out[name] = None
+            continue
+        n = len(tb["feats"])
+        out[name] = {"feature_count": n, "langsys_tag": untag(sys["tag"]), "required": sys["req"],
+                     "feature_indices": list(sys["feats"]),
+                     "their_tags": [tb["feats"][i] if i < n else "DANGLING" for i in sys["feats"]],
+                     "lookup_indices_of_listed_features": {str(i): feature_lookups(tb, i) for i in sys["feats"] if i < n}}
+    return out
 
 
 def expected_multi(gsub, gpos, sel, d, default_shaper):
@@ -954,6 +1169,36 @@ def multi_cases(ctx, r, shim):
         c["hex"] = fontbuild.build(recipe_multi(gsub, gpos)).hex()
         c["abs"] = abstract(gsub) + "/" + abstract(gpos)
         cases.append(c)
+    # the same kinds of fonts, malformed but accepted (see malform_table), GSUB and GPOS independently; here also with
+    # script / language-system records out of order or duplicated (the selection is the model's, tied by tag-select)
+    rm = ctx.rng("multi-malformed")
+    for n in range(ctx.budget(900, 20000)):
+        s = rm.choice(MULTI_SCRIPTS); l = rm.choice(MULTI_LANGS)
+        st, lt = tl[(s, l)]
+        small = rm.chance(1, 2)
+        universe = list(dict.fromkeys(tl[(s, "-")][0] + [tg("DFLT"), tg("latn")]))
+        if small:
+            universe = universe[:1] + [tg("DFLT")]
+        present = [t for t in universe if rm.chance(1, 2)] or [rm.choice(universe)]
+        if rm.chance(1, 6):
+            present = [tg("DFLT")]
+        lang_universe = list(dict.fromkeys(lt + [tg("JAN "), tg("KOR "), tg("ZHS "), tg("AAA ")]))
+        if small:
+            lang_universe = lang_universe[:3]
+        gsub = rand_table_multi(rm, 0, present, lang_universe, small)
+        gpos = (rand_table_multi(rm, 1, [t for t in universe if rm.chance(1, 2)] or [tg("DFLT")], lang_universe, small)
+                if rm.chance(1, 3 if small else 2) else None)
+        if rm.chance(1, 10):
+            gsub, gpos = None, rand_table_multi(rm, 1, present, lang_universe, small)
+        mal = []
+        for tb, name in ((gsub, "gsub"), (gpos, "gpos")):
+            if tb is not None and rm.chance(4, 5):
+                mal += [f"{name}:{k}" for k in malform_table(rm, tb, records=True)]
+        c = {"gsub": gsub, "gpos": gpos, "script": s, "lang": l, "st": st, "lt": lt, "kind": "multi",
+             "dir": DIRS[n % 4], "mal": mal}
+        c["hex"] = fontbuild.build(recipe_multi(gsub, gpos)).hex()
+        c["abs"] = abstract(gsub) + "/" + abstract(gpos)
+        cases.append(c)
     return cases
 
 
@@ -987,8 +1232,8 @@ def show_multi(m):
 def stream_resolve(ctx, r, cases, mcases):
     """tag-select correspondence, continued: find_language_feature on the multi-record fonts, and the feature indices
     of the compiled plan (ShapePlan::new, all four directions) against Tag.planFeatures = Map's compiler over the
-    records Tag selects"""
-    lines, kind = [], {}
+    records Tag selects. Returns the requests with their cases (the resolve-plan search judges the crate's replies)."""
+    lines, kind, reqs = [], {}, []
     for c in mcases:
         tb = c["gsub"] if c["gsub"] is not None else c["gpos"]
         t = 0 if c["gsub"] is not None else 1
@@ -997,10 +1242,28 @@ def stream_resolve(ctx, r, cases, mcases):
                 si = r.below(len(tb["scripts"]))
                 nl = len(tb["scripts"][si]["langs"])
                 li = "-" if (nl == 0 or r.chance(1, 3)) else str(r.below(nl))
-                ln = f"tagfeat {c['hex']} {c['abs']} {t} {si} {li} {tg(r.choice(MULTI_TAGS[t]))}"
-                lines.append(ln); kind[ln] = "multi"
+                tag = r.choice(MULTI_TAGS[t])
+                ln = f"tagfeat {c['hex']} {c['abs']} {t} {si} {li} {tg(tag)}"
+                lines.append(ln); kind[ln] = "multi" + ("+malformed" if c.get("mal") else "")
+                reqs.append({"line": ln, "cmd": "tagfeat", "case": c, "t": t, "si": si,
+                             "li": None if li == "-" else int(li), "tag": tag})
+    # every tag of every language system of the malformed single-record fonts, both tables
+    for c in cases:
+        if c["kind"] != "malformed":
+            continue
+        for t, tb in ((0, c["gsub"]), (1, c["gpos"])):
+            if tb is None or not tb["scripts"] or not r.chance(1, 2):
+                continue
+            si = r.below(len(tb["scripts"]))
+            nl = len(tb["scripts"][si]["langs"])
+            li = "-" if (nl == 0 or r.chance(1, 3)) else str(r.below(nl))
+            tag = r.choice([REG_TAG[t], REG_TAG[t], "zzz0", "rqd0", "none"])
+            ln = f"tagfeat {c['hex']} {c['abs']} {t} {si} {li} {tg(tag)}"
+            lines.append(ln); kind[ln] = "single+malformed"
+            reqs.append({"line": ln, "cmd": "tagfeat", "case": c, "t": t, "si": si,
+                         "li": None if li == "-" else int(li), "tag": tag})
     every = sorted(set(MULTI_GSUB + MULTI_GPOS + ["ccmp", "dist", "zzz0", "rqd0", "rqd1", "liga", "kern", "rvrn", "frac", "none"]))
-    for c in mcases + [c for c in cases if c["kind"] == "sorted"]:
+    for c in mcases + [c for c in cases if c["kind"] in ("sorted", "malformed")]:
         multi = c["kind"] == "multi"
         d = DIRS.index(c["dir"]) if multi else r.below(4)
         # the model knows the feature list of a shaper without features of its own; under the other shapers only the
@@ -1009,7 +1272,10 @@ def stream_resolve(ctx, r, cases, mcases):
         tags = every if default else sorted(SHAPER_INDEPENDENT)
         ln = (f"tagresolve {c['hex']} {c['abs']} {d} {tg(c['script'])} {'-' if c['lang'] == '-' else hx(c['lang'])} "
               + ",".join(str(tg(t)) for t in tags))
-        lines.append(ln); kind[ln] = ("multi" if multi else "single") + ":" + ("default-shaper" if default else "other-shaper")
+        lines.append(ln)
+        kind[ln] = (("multi" if multi else "single") + ("+malformed" if c.get("mal") else "") + ":"
+                    + ("default-shaper" if default else "other-shaper"))
+        reqs.append({"line": ln, "cmd": "tagresolve", "case": c, "d": d, "tags": tags, "default": default})
 
     vert = tg("vert")
     def classify(ln, out):
@@ -1027,7 +1293,158 @@ def stream_resolve(ctx, r, cases, mcases):
                 if str(vert) in tags:
                     ks.append("tagresolve:vert=" + ("x" if o[tags.index(str(vert))] == "x" else "index"))
         return ks
-    return ctx.correspond("tag-select", lines=lines, classify=classify, canon=canon)
+    ctx.correspond("tag-select", lines=lines, classify=classify, canon=canon)
+    return reqs
+
+
+# ----------------------------------------------------------------------------------------------
+# the crate's find_language_feature / compiled plan judged from the recipe (no model involved except for the selection)
+
+def first_listed(tb, sys, tag):
+    """OpenType / HarfBuzz (hb_ot_layout_language_find_feature): the first index the language system lists whose feature
+    record EXISTS and carries the tag; indices past the FeatureList are passed over"""
+    if tb is None or sys is None:
+        return None
+    for fi in sys["feats"]:
+        if fi < len(tb["feats"]) and tb["feats"][fi] == tag:
+            return fi
+    return None
+
+
+def expected_tagfeat(q):
+    c = q["case"]
+    tb = c["gsub"] if q["t"] == 0 else c["gpos"]
+    if tb is None:
+        return ["notable"]
+    if q["si"] >= len(tb["scripts"]):
+        return ["-"]
+    sc = tb["scripts"][q["si"]]
+    sys = sc["dflt"] if q["li"] is None else (sc["langs"][q["li"]] if q["li"] < len(sc["langs"]) else None)
+    fi = first_listed(tb, sys, q["tag"])
+    return ["-" if fi is None else str(fi)]
+
+
+def expected_tagresolve(q, plan_line):
+    """per requested tag: list of acceptable replies | None (not judged)"""
+    c = q["case"]
+    f = plan_line.split()
+    if len(f) != 3 or plan_line.startswith("panic"):
+        return None
+    sel = [parse_sel(f[1]), parse_sel(f[2])]
+    tbs = (c["gsub"], c["gpos"])
+    d = DIRS[q["d"]]
+    exp = []
+    for tag in q["tags"]:
+        if tag not in ENABLED:
+            exp.append(None); continue
+        en = enabled_in(tag, d, q["default"])
+        if not en:                        # not registered in this direction, or up to the shaper: not judged here
+            exp.append(None); continue
+        l = [first_listed(tbs[t], selected_sys(tbs[t], sel[t]), tag) for t in (0, 1)]
+        if l == [None, None]:
+            if tag == "vert":             # the global search
+                g = []
+                for tb in tbs:
+                    if tb is None or tag not in tb["feats"]:
+                        g.append(None)
+                    elif tb.get("sorted", all(tg(a) <= tg(b) for a, b in zip(tb["feats"], tb["feats"][1:]))):
+                        g.append(tb["feats"].index(tag))
+                    else:
+                        g = None; break
+                if g is None:
+                    exp.append(None); continue
+                l = g
+            if l == [None, None]:
+                exp.append(["x", "-/-"]); continue
+        exp.append(["/".join("-" if x is None else str(x) for x in l)])
+    return exp
+
+
+def judge_tagresolve(exp, reply):
+    """-> indices of the requested tags whose reply is not acceptable"""
+    o = reply.split()
+    if exp is None:
+        return []
+    if len(o) != len(exp):
+        return list(range(len(exp)))
+    return [i for i, (e, x) in enumerate(zip(exp, o)) if e is not None and x not in e]
+
+
+def search_resolve_plan(ctx, reqs):
+    """find_language_feature and the compiled plan's feature indices on the generated fonts, judged from the recipe:
+    exactly the existing listed features (first listed first) — whatever dangles or is duplicated around them"""
+    shim = vlib.build_harness()
+    model = vlib.build_model()
+    res = [q for q in reqs if q["cmd"] == "tagresolve"]
+    plan_lines = [f"tagplan {q['case']['hex']} {q['case']['abs']} {q['d']} {tg(q['case']['script'])} "
+                  f"{'-' if q['case']['lang'] == '-' else hx(q['case']['lang'])}" for q in res]
+    plans = dict(zip((id(q) for q in res), vlib.run_lines(model, plan_lines)))
+    outs = vlib.run_lines(shim, [q["line"] for q in reqs])
+    dist = {}
+    def bump(k):
+        dist[k] = dist.get(k, 0) + 1
+    failing = {"tagfeat": [], "tagresolve": []}
+    nontriv = 0
+    for q, o in zip(reqs, outs):
+        c = q["case"]
+        if q["cmd"] == "tagfeat":
+            exp = expected_tagfeat(q)
+            bump("tagfeat:" + ("found" if exp[0] not in ("-", "notable") else "not-found") + ("+malformed" if c.get("mal") else ""))
+            if exp[0] not in ("-", "notable"):
+                nontriv += 1
+            if o not in exp:
+                failing["tagfeat"].append((len(c["hex"]), len(failing["tagfeat"]), q, o, exp, None))
+        else:
+            p = plans[id(q)]
+            exp = expected_tagresolve(q, p)
+            if exp is None:
+                bump("tagresolve:no-selection"); continue
+            sel = [parse_sel(x) for x in p.split()[1:]]
+            bump("tagresolve" + ("+malformed" if c.get("mal") else ""))
+            for k in selected_malformations(c, sel):
+                bump(k)
+            if any(e is not None and e != ["x", "-/-"] for e in exp):
+                nontriv += 1
+            badtags = judge_tagresolve(exp, o)
+            if badtags:
+                failing["tagresolve"].append((len(c["hex"]), len(failing["tagresolve"]), q, o, exp, (p, sel, badtags)))
+    for cmd in ("tagfeat", "tagresolve"):
+        for _, _, q, o, exp, extra in sorted(failing[cmd], key=lambda x: x[:2])[:1]:     # the smallest font of each kind
+            c = q["case"]
+            if cmd == "tagfeat":
+                tb = c["gsub"] if q["t"] == 0 else c["gpos"]
+                sc = tb["scripts"][q["si"]]
+                sys = sc["dflt"] if q["li"] is None else sc["langs"][q["li"]]
+                n = len(tb["feats"])
+                ctx.violation(f"find_language_feature({'GSUB' if q['t'] == 0 else 'GPOS'}, script record {q['si']}, language system "
+                              f"{'default' if q['li'] is None else q['li']}, '{q['tag']}') = {o}, expected {exp[0]}: the language "
+                              f"system lists {sys['feats'] if sys else None} (FeatureCount {n}: "
+                              f"{[tb['feats'][i] if i < n else 'DANGLING' for i in (sys['feats'] if sys else [])]})",
+                              {"stage": "search", "stream": "resolve-plan", "request": q["line"], "expected": exp, "observed": o,
+                               "feature_list": tb["feats"], "langsys_feature_indices": sys["feats"] if sys else None,
+                               "malformations": c.get("mal", [])})
+            else:
+                p, sel, badtags = extra
+                what = ", ".join(f"'{q['tags'][i]}': plan has {o.split()[i] if i < len(o.split()) else '?'} (GSUB/GPOS record), expected {' or '.join(exp[i])}"
+                                 for i in badtags[:4])
+                ctx.violation(f"the compiled plan does not point to the feature records the selected language systems list: script "
+                              f"{c['script']} language {c['lang']} direction {DIRS[q['d']]}: {what}",
+                              {"stage": "search", "stream": "resolve-plan", "request": q["line"], "expected": exp, "observed": o,
+                               "model_selection": p, "selected_language_systems": describe_selected(c, sel),
+                               "feature_list": {"gsub": c["gsub"]["feats"] if c["gsub"] else None,
+                                                "gpos": c["gpos"]["feats"] if c["gpos"] else None},
+                               "malformations": c.get("mal", [])})
+    ctx.note_search("resolve-plan", len(reqs), nontriv, distribution=dist,
+                    mismatches={k: len(v) for k, v in failing.items()},
+                    rule="the tagfeat / tagresolve requests of the tag-select stream, the crate's replies judged from the recipe alone: "
+                         "find_language_feature returns the first index the language system lists whose feature record exists and "
+                         "carries the tag (indices past the FeatureList are passed over, wherever they stand); every feature map of "
+                         "the compiled plan (ShapePlan::new, four directions, 12 scripts x 9 languages) whose tag the direction "
+                         "enables points to exactly those records in GSUB and in GPOS, 'vert' to the first FeatureList record when "
+                         "no selected language system lists one; fonts: the select-shape and resolve-shape fonts incl. the malformed "
+                         "ones (dangling / duplicated feature indices first / middle / last, dangling required and lookup indices, "
+                         "shared LangSys tables, unsorted and duplicated records, missing default language systems, DFLT only); "
+                         "non-trivial = some record expected")
 
 
 def search_resolve_shape(ctx, cases):
@@ -1065,6 +1482,12 @@ def search_resolve_shape(ctx, cases):
                  + (":several-records" if nrec > 1 else ""))
         if any(v not in (None, "?") for v in exp.values()):
             nontriv += 1
+        if c.get("mal"):
+            bump("malformed")
+            for k in c["mal"]:
+                bump("font:" + k)
+            for k in selected_malformations(c, [parse_sel(x) for x in p.split()[1:]]):
+                bump(k)
         if diff:
             bad += 1
             failing.append((len(c["hex"]), len(failing), c, p, o, exp, got, diff))
@@ -1080,7 +1503,9 @@ def search_resolve_shape(ctx, cases):
                                         "gpos": c["gpos"]["feats"] if c["gpos"] else None},
                        "sorted": [c["gsub"]["sorted"] if c["gsub"] else None, c["gpos"]["sorted"] if c["gpos"] else None],
                        "expected": show_multi(exp), "observed_records": show_multi(got),
-                       "differs": [list(k) if k != "malformed" else k for k in diff], "observed": o[1]})
+                       "differs": [list(k) if k != "malformed" else k for k in diff], "observed": o[1],
+                       "malformations": c.get("mal", []),
+                       "selected_language_systems": describe_selected(c, [parse_sel(x) for x in p.split()[1:]])})
     ctx.note_search("resolve-shape", len(cases), nontriv, distribution=dist, mismatches=bad,
                     rule="synthetic fonts whose FeatureList holds several records per tag (one per language system, shared "
                          "records, two of one tag in one language system, records no language system lists; sorted by tag, "
@@ -1088,8 +1513,12 @@ def search_resolve_shape(ctx, cases):
                          "names the record; shape() in the four directions under 12 scripts x 9 languages; per tag that the "
                          "direction enables the applied record must be the first one the selected language system lists, for "
                          "'vert' (vertical) the first record of the FeatureList when no table's language system lists one, "
-                         "nothing for tags the direction does not enable; the required feature always; non-trivial = some "
-                         "record expected")
+                         "nothing for tags the direction does not enable; the required feature always; plus the same fonts "
+                         "malformed but accepted (dangling / duplicated feature indices at the first, a middle, the last position "
+                         "of a language system's array, dangling required and lookup indices, LangSys tables shared between "
+                         "records, script / language-system records unsorted or duplicated, default language systems missing, "
+                         "DFLT only; GSUB and GPOS independently): exactly the EXISTING listed records take part, whatever "
+                         "stands before them; non-trivial = some record expected")
 
 
 # ----------------------------------------------------------------------------------------------
@@ -1120,7 +1549,7 @@ def run(ctx):
     cases = select_cases(ctx, ctx.rng("select-fonts"), shim)
     mcases = multi_cases(ctx, ctx.rng("multi-fonts"), shim)
     stream_select(ctx, ctx.rng("select"), cases)
-    stream_resolve(ctx, ctx.rng("resolve"), cases, mcases)
+    reqs = stream_resolve(ctx, ctx.rng("resolve"), cases, mcases)
     search_registry(ctx, shim, rows)
     search_wellknown(ctx, shim)
     search_bcp47(ctx, shim, rows)
@@ -1128,6 +1557,7 @@ def run(ctx):
     search_total(ctx, shim, ctx.rng("total"), rows, branch, ctx.budget(4000, 300000))
     search_shape(ctx, cases)
     search_resolve_shape(ctx, mcases)
+    search_resolve_plan(ctx, reqs)
 
 
 def replay(ctx, rp):
@@ -1166,6 +1596,13 @@ def replay(ctx, rp):
             if (e is None) != (v is None) or (e is not None and int(e) != v):
                 return 1
         return 0
+    if rp.get("stream") == "resolve-plan":
+        a = vlib.run_lines(shim, [rp["request"]], nproc=1)[0]
+        print("impl    :", a)
+        print("expected:", rp["expected"])
+        if rp["request"].startswith("tagfeat"):
+            return 0 if a in rp["expected"] else 1
+        return 1 if judge_tagresolve(rp["expected"], a) else 0
     if "request" in rp:
         a = vlib.run_lines(shim, [rp["request"]], nproc=1)[0]
         print("impl :", a)
